@@ -120,6 +120,18 @@ var _ = encode.U16{}
 
 // vSkeleton returns a concrete, strictly ascending key list chosen for its shape.
 func vSkeleton(id int) []string {
+	if id >= 330 {
+		// F one-byte leaf keys 0x01..F followed by one inner node with two leaves: the last inner
+		// node has id F+1 = 63, 127, 191, 255 -- the last bit of a word of the node-type bitmap,
+		// with leaves before it in the same word
+		f := []int{62, 126, 190, 254}[id-330]
+		var ks []string
+		for b := 1; b <= f; b++ {
+			ks = append(ks, string([]byte{byte(b)}))
+		}
+		ks = append(ks, string([]byte{byte(f + 1), 'a'}), string([]byte{byte(f + 1), 'b'}))
+		return ks
+	}
 	if id >= 310 {
 		// group families whose bitmap length / inner count / short count is a multiple of 64
 		// (found by a native search): 30x{a,b} (128 bits, last node short), 56x{a,b} (64 inner
